@@ -60,11 +60,14 @@ fn readme_directive(rng: &mut Rng) -> String {
         4 => format!("--{}noqa:{}disable=all", sp(rng), sp(rng)),
         5 => format!("--{}noqa:{}enable=all", sp(rng), sp(rng)),
         _ => {
-            let inner = match rng.below(4) {
+            let inner = match rng.below(7) {
                 0 => "noqa: disable=all".to_string(),
                 1 => "noqa: enable=all".to_string(),
                 2 => format!("noqa: disable={}", CODES[rng.below(3)]),
-                _ => format!("noqa: enable={}", CODES[rng.below(3)]),
+                3 => format!("noqa: enable={}", CODES[rng.below(3)]),
+                4 => "noqa".to_string(),
+                5 => format!("noqa: {}", CODES[rng.below(6)]),
+                _ => format!("noqa: {},{}", CODES[rng.below(6)], CODES[rng.below(6)]),
             };
             format!("/* {} */", inner)
         }
@@ -121,6 +124,12 @@ fn gen_file(rng: &mut Rng, odd: bool) -> String {
                     // block comment in the middle of a line: put it before the statement instead
                     let stmt_start = s.rfind('\n').map(|i| i + 1).unwrap_or(0);
                     s.insert_str(stmt_start, &format!("{} ", d));
+                    // ... and sometimes a second directive at the end of the same line
+                    if rng.chance(1, 2) {
+                        let d2 = if odd && rng.chance(1, 3) { odd_directive(rng) } else { readme_directive(rng) };
+                        s.push(' ');
+                        s.push_str(&d2);
+                    }
                 } else {
                     s.push_str(&d);
                 }
@@ -234,6 +243,9 @@ pub fn main(args: &Args) {
             ("CP01,AL02", "SELECT col_a a FROM foo -- noqa: disable=all\nSELECT col_a a FROM foo -- noqa: enable=AL02\nSELECT col_a a FrOM foo\n"),
             ("AL02", "SELECT\n    col_a a,\n    col_c c, --noqa: disable=AL02\n    col_d d,\n    col_e e, --noqa: enable=AL02\n    col_f f\nFROM foo\n"),
             ("CP01,LT01,AL02", "SeLeCt  1 from tBl ;    -- noqa\nSeLeCt  1 from tBl ;    -- noqa: CP01,LT01\n"),
+            ("AL02,CP01", "SELECT\n/* noqa: CP01 */ col_a a, col_b b -- noqa: AL02\nFROM foo\n"),
+            ("AL02,CP01", "SELECT\n/* noqa: CP01 */ col_a a, col_b b -- noqa\nFROM foo\n"),
+            ("AL02", "SELECT\n    col_a a, --noqa: disable=all\n    col_b b, --noqa: enable=AL02\n    col_c c, --noqa: disable=all\n    col_d d,\n    col_e e --noqa: enable=all\nFROM foo\n"),
         ];
         for (rules, sql) in fixed {
             push("readme", "regression", "ansi", rules, sql);
